@@ -54,6 +54,48 @@ def finding_coq(r):
     return impl.finding_coq(r)
 
 
+def cli_targets(R, rng, tier):
+    """The totals are the sums over the files whatever the targets are called: relative, dotted, underscored, explicit."""
+    import climain
+    import json
+    import shutil
+    d = os.path.join(impl.scratch(), "c12t")
+    shutil.rmtree(d, ignore_errors=True)
+    for sub in ("_vendor", "pkg", "__pycache__x", "pkg/_private"):
+        os.makedirs(os.path.join(d, sub))
+    srcs = {"_vendor/a.py": "assert a  # nosec\nimport pickle\n", "_vendor/_b.py": "exec(x)\n\n# c\n", "pkg/c.py": "assert c\nassert d  # nosec B101\n",
+            "pkg/_private/d.py": "import subprocess\nsubprocess.call(x, shell=True)  # nosec\n", "__pycache__x/e.py": "assert e\n", "_top.py": "assert t  # nosec\nx = 1\n",
+            "__init__.py": "import telnetlib\n"}
+    for f, src in srcs.items():
+        open(os.path.join(d, f), "w").write(src)
+    target_sets = [["-r", "_vendor"], ["-r", "_vendor", "pkg"], ["-r", "./_vendor"], ["-r", "."], ["_top.py", "__init__.py"], ["-r", "pkg", "_top.py"],
+                   ["-r", "__pycache__x", "_vendor"], ["-r", os.path.join(d, "_vendor")], ["-r", "pkg/_private"]]
+    for ts in target_sets:
+        r = climain.run_main(["-q", "-f", "json", "--exit-zero"] + ts, cwd=d)
+        R.case(("targets", tuple(ts)), nontrivial=True, sample={"targets": ts, "exit": r["exit"]})
+        R.count("cli-targets")
+        if r["exception"]:
+            R.violations.append({"what": "no report for targets %s (%s)" % (ts, r["exception"]), "input": {"targets": ts}, "observed": (r["traceback"] or "")[-300:], "signature": None})
+            continue
+        j = json.loads(r["stdout"])
+        files = {k: v for k, v in j["metrics"].items() if k != "_totals"}
+        tot = j["metrics"]["_totals"]
+        for k in tot:
+            want = sum(v.get(k, 0) for v in files.values())
+            if tot[k] != want:
+                R.violations.append({"what": "_totals[%s]=%s is not the sum %s over the %d files of the report (targets %s)" % (k, tot[k], want, len(files), ts),
+                                     "input": {"targets": ts, "files": sorted(files)}, "observed": tot, "signature": None})
+                break
+        # every finding is counted, every counted file is listed
+        for crit, key in (("SEVERITY", "issue_severity"), ("CONFIDENCE", "issue_confidence")):
+            for rk in RANKS:
+                n = sum(1 for x in j["results"] if x[key] == rk)
+                if tot.get("%s.%s" % (crit, rk)) != n:
+                    R.violations.append({"what": "_totals[%s.%s]=%s but the report lists %d such findings (targets %s)" % (crit, rk, tot.get("%s.%s" % (crit, rk)), n, ts),
+                                         "input": {"targets": ts}, "observed": tot, "signature": None})
+    shutil.rmtree(d, ignore_errors=True)
+
+
 def run(R, replay=None):
     rng = random.Random(R.seed)
     for f in core.gen():
@@ -157,4 +199,5 @@ def run(R, replay=None):
     for i, tail in mm:
         R.broken.append({"what": "correspondence: _totals differs from the aggregate model",
                          "input": total_cases[i][0][:400], "implementation": total_cases[i][1][:400], "model_output_excerpt": tail[:800]})
+    cli_targets(R, rng, R.tier)
     R.disagreements_checked = len(block_cases) + len(total_cases)
